@@ -206,6 +206,7 @@ class WsConn:
         self.accepted = False
         self.s2c_queue = []
         self.c2s_queue = []
+        self.arrivals = []              # (seq, t, item) reaching the server
 
     # ---- client side API (kernel context) ---------------------------------
     def send(self, data):
@@ -259,8 +260,11 @@ class WsConn:
         if item[0] == 'close':
             self.seq_close_arrived = self.k.ev('ws.s.close_arrived',
                                                wid=self.wid)
+            self.t_close_arrived = self.k.now
+            self.arrivals.append((self.seq_close_arrived, self.k.now, item))
         else:
-            self.k.ev('ws.s.arrived', wid=self.wid, data=_brief(item[1]))
+            s = self.k.ev('ws.s.arrived', wid=self.wid, data=_brief(item[1]))
+            self.arrivals.append((s, self.k.now, item))
         self.server_inbox.append(item)
         self.world._ws_wake_server(self)
 
